@@ -10,11 +10,15 @@ PROP = "C13"
 LEVEL = "exploration"
 TECHNIQUE = "reference-model monitors: symbol-identity/exception oracle on the assembler, scan of module symbols and edges after N-fold insertion of one patch through the real RewritingContext, canonical-dump differential of chunked vs whole assembly"
 RULE = (
-    "four workloads: (u) programs referencing unknown names with "
+    "four workloads: (u) programs referencing unknown names (as operands, "
+    "or first/only in a .globl/.weak/.hidden/.local/.type directive) with "
     "allow_undef_symbols on/off: UndefSymbolError, or exactly one "
     "proxy-backed symbol per name; (m) programs defining a name that exists "
-    "in the module or twice: MultipleDefinitionsError; (n) one patch with "
-    "temporary and global-per-copy labels, loops and forward skips inserted "
+    "in the module (also an assembler-private name while a temporary-label "
+    "suffix is in effect) or twice (also in two assemble() calls of one "
+    "Assembler): MultipleDefinitionsError; (n) one patch with "
+    "temporary and global-per-copy labels, .set-assigned temporary names, "
+    "loops and forward skips inserted "
     "1-20 times in one rewrite via AllBlocksScope or repeated insert_at: "
     "no two module symbols share a name, every copy's branch edges lead to "
     "its own labels; (c) the C12 program generator with every valid "
